@@ -1,23 +1,8 @@
-import Pds.Generated.Kernels.Merge
-import Pds.Model.Hll
+import Pds.Generated.Kernels.MergeCms
 import Pds.Model.Cms
-/-!
-Tie by translation: `HyperLogLog::merge` and `CountMinSketch::merge` — the `assert_eq!`s on the geometry and
-the iterator chain `a.iter().zip(b.iter()).map(|x| …).collect()` — as translated from the source are the model's
-`merge` functions (the `buildhasher` equality is checked by the caller in both models).
--/
+/-! Tie by translation: `CountMinSketch::merge` (both `assert_eq!`, cells zipped with `checked_add(..).unwrap()`) is the model's `merge`. -/
 namespace Pds.KernelTie
 open Pds Pds.Generated.Kernels
-
-theorem hll_merge_eq (s o : Hll.St) :
-    hll_merge s.b s.regs.toList o.b o.regs.toList =
-      match Hll.merge s o with
-      | none => Flow.panic
-      | some s' => Flow.cont s'.regs.toList := by
-  unfold hll_merge Hll.merge
-  by_cases h : s.b = o.b
-  · simp [h]
-  · simp [h]
 
 theorem zipWithM_checkedAdd (cmax : Nat) (xs ys : List Nat) :
     KOps.zipWithM (fun a b => KOps.checkedAddMax cmax a b) xs ys = Cms.mergeCells cmax xs ys := by
